@@ -307,5 +307,7 @@ func TestVerifC12(t *testing.T) {
 		"effect at a step with >= 2 enabled goroutines. A failure counts only if it reproduces from its schedule.")
 	r.Assume("pre-emption is explored at synchronisation operations only (delay bound 2); Go's random choice among simultaneously ready select cases is not controlled - the evidence reports schedules whose failure did not reproduce")
 	ev.Run(t, r, ev.Spec[c12TW]{Name: "timewheel-scenarios", N: r.N, Gen: c12GenTW, Run: c12RunTW,
-		Info: func(sc c12TW) ev.Info { return ev.Info{Nontrivial: true, Classes: []string{fmt.Sprintf("producers=%d", len(sc.Producers))}} }})
+		Info: func(sc c12TW) ev.Info {
+			return ev.Info{Nontrivial: true, Classes: []string{fmt.Sprintf("producers=%d", len(sc.Producers))}}
+		}})
 }
